@@ -173,7 +173,7 @@ Definition dispatch (req : list Z) : list Z :=
   (* 110: reductions on one slice: kind (0 sum,1 cumsum,2 prod) f count slice ; 111: dot fx fy xs ys *)
   | 110 :: t => run (k <- dZ ;; f <- dfmt ;; cnt <- dZ ;; l <- dlist dZ ;; dret (k, f, cnt, l))
                 (fun '(k, f, cnt, l) => eoutcome (fun p => efmt (fst p) ++ ewres (fst p) (snd p))
-                   (match k with 0 => fxp_sum f cnt l Trunc Saturate | 1 => fxp_cumsum f cnt l Trunc Saturate | _ => fxp_prod f cnt l Trunc Saturate end)) t
+                   (match k with 0 => fxp_sum f cnt l Trunc Saturate | 1 => fxp_cumsum f cnt l Trunc Saturate | 3 => fxp_cumprod f l Trunc Saturate | _ => fxp_prod f cnt l Trunc Saturate end)) t
   | 111 :: t => run (fx <- dfmt ;; fy <- dfmt ;; xs <- dlist dZ ;; ys <- dlist dZ ;; dret (fx, fy, xs, ys))
                 (fun '(fx, fy, xs, ys) => eoutcome (fun p => efmt (fst p) ++ ewres (fst p) (snd p)) (fxp_dot fx fy xs ys Trunc Saturate)) t
   | _ => bad_request
